@@ -43,6 +43,10 @@ pub fn instances() -> Vec<Instance> {
             push(w, RefKind::Id, reduced);
         }
     }
+    // digit-leading identifiers that look like the start of a binary / hexadecimal literal but are not one
+    for w in ["0b", "0x", "0b2", "0b9", "0b7a", "0bz", "0b_", "0xg", "0x_", "0xz9", "7b", "7x1"] {
+        push(w.to_string(), RefKind::Id, matches!(w, "0b2" | "0x"));
+    }
     // decimal integers
     for sign in ["", "+", "-"] {
         for w in words_over(&["0", "1", "9"], 3) {
@@ -201,7 +205,7 @@ impl Engine for C14 {
     fn rule(&self, tier: Tier) -> String {
         let n = instances();
         format!(
-            "{} token instances (identifiers <=3 over {{a,Z,_,7}} incl. digit-leading; signed decimals <=3 digits over {{0,1,9}} + 64-bit boundary values; hex <=2, binary <=3 digits; string bodies <=3 items over {{a,space,\\\\,\\\",\\',\\t,\\n}}; code bodies <=3 over {{a,}},],[,{{,LF}}; $names; 25 keywords; 53 operators; 18 punctuation marks); \
+            "{} token instances (identifiers <=3 over {{a,Z,_,7}} incl. digit-leading, and 12 identifiers that begin like 0b / 0x literals; signed decimals <=3 digits over {{0,1,9}} + 64-bit boundary values; hex <=2, binary <=3 digits; string bodies <=3 items over {{a,space,\\\\,\\\",\\',\\t,\\n}}; code bodies <=3 over {{a,}},],[,{{,LF}}; $names; 25 keywords; 53 operators; 18 punctuation marks); \
              every single instance, every ordered pair{} joined by each of {} separators, with and without a trailing separator; expected stream known by construction and cross-checked against the reference lexer. \
              non-trivial = not two punctuation marks; descriptors distinct by construction.",
             n.len(),
